@@ -1,1 +1,250 @@
-//! (reference for rc2: to be written)
+//! RC2, written from RFC 2268 (R. Rivest, "A Description of the RC2(r) Encryption Algorithm", March 1998):
+//! section 2 (key expansion), section 3 (encryption: mix, mash, mixing round, mashing round), section 4
+//! (decryption: r-mix, r-mash), section 5 (test vectors).
+//!
+//! Notation of the RFC: the key buffer is L[0..127] (bytes) = K[0..63] (16-bit words, K[i] = L[2i] + 256 L[2i+1]);
+//! T = number of key bytes supplied (1..128), T1 = effective key length in bits (1..1024),
+//! T8 = ceil(T1 / 8), TM = 255 MOD 2^(8 + T1 - 8*T8).  The block is R[0..3], 16-bit words, little-endian bytes.
+
+/// PITABLE of RFC 2268 section 2 ("a random permutation of 0..255 derived from the digits of pi"): cannot be
+/// recomputed from a definition given in the RFC; snapshot of the pinned tree (/repo/rc2/src/consts.rs), the
+/// first row reads d9 78 f9 c4 19 dd b5 ed 28 e9 fd 79 4a a0 d8 9d as printed in the RFC.
+pub const PITABLE: [u8; 256] = [
+    0xd9, 0x78, 0xf9, 0xc4, 0x19, 0xdd, 0xb5, 0xed, 0x28, 0xe9, 0xfd, 0x79, 0x4a, 0xa0, 0xd8, 0x9d,
+    0xc6, 0x7e, 0x37, 0x83, 0x2b, 0x76, 0x53, 0x8e, 0x62, 0x4c, 0x64, 0x88, 0x44, 0x8b, 0xfb, 0xa2,
+    0x17, 0x9a, 0x59, 0xf5, 0x87, 0xb3, 0x4f, 0x13, 0x61, 0x45, 0x6d, 0x8d, 0x09, 0x81, 0x7d, 0x32,
+    0xbd, 0x8f, 0x40, 0xeb, 0x86, 0xb7, 0x7b, 0x0b, 0xf0, 0x95, 0x21, 0x22, 0x5c, 0x6b, 0x4e, 0x82,
+    0x54, 0xd6, 0x65, 0x93, 0xce, 0x60, 0xb2, 0x1c, 0x73, 0x56, 0xc0, 0x14, 0xa7, 0x8c, 0xf1, 0xdc,
+    0x12, 0x75, 0xca, 0x1f, 0x3b, 0xbe, 0xe4, 0xd1, 0x42, 0x3d, 0xd4, 0x30, 0xa3, 0x3c, 0xb6, 0x26,
+    0x6f, 0xbf, 0x0e, 0xda, 0x46, 0x69, 0x07, 0x57, 0x27, 0xf2, 0x1d, 0x9b, 0xbc, 0x94, 0x43, 0x03,
+    0xf8, 0x11, 0xc7, 0xf6, 0x90, 0xef, 0x3e, 0xe7, 0x06, 0xc3, 0xd5, 0x2f, 0xc8, 0x66, 0x1e, 0xd7,
+    0x08, 0xe8, 0xea, 0xde, 0x80, 0x52, 0xee, 0xf7, 0x84, 0xaa, 0x72, 0xac, 0x35, 0x4d, 0x6a, 0x2a,
+    0x96, 0x1a, 0xd2, 0x71, 0x5a, 0x15, 0x49, 0x74, 0x4b, 0x9f, 0xd0, 0x5e, 0x04, 0x18, 0xa4, 0xec,
+    0xc2, 0xe0, 0x41, 0x6e, 0x0f, 0x51, 0xcb, 0xcc, 0x24, 0x91, 0xaf, 0x50, 0xa1, 0xf4, 0x70, 0x39,
+    0x99, 0x7c, 0x3a, 0x85, 0x23, 0xb8, 0xb4, 0x7a, 0xfc, 0x02, 0x36, 0x5b, 0x25, 0x55, 0x97, 0x31,
+    0x2d, 0x5d, 0xfa, 0x98, 0xe3, 0x8a, 0x92, 0xae, 0x05, 0xdf, 0x29, 0x10, 0x67, 0x6c, 0xba, 0xc9,
+    0xd3, 0x00, 0xe6, 0xcf, 0xe1, 0x9e, 0xa8, 0x2c, 0x63, 0x16, 0x01, 0x3f, 0x58, 0xe2, 0x89, 0xa9,
+    0x0d, 0x38, 0x34, 0x1b, 0xab, 0x33, 0xff, 0xb0, 0xbb, 0x48, 0x0c, 0x5f, 0xb9, 0xb1, 0xcd, 0x2e,
+    0xc5, 0xf3, 0xdb, 0x47, 0xe5, 0xa5, 0x9c, 0x77, 0x0a, 0xa6, 0x20, 0x68, 0xfe, 0x7f, 0xc1, 0xad,
+];
+
+/// Key expansion (section 2) on a supplied key of `t` bytes held in `key[0..t]`, effective length `t1` bits.
+/// Requires 1 <= t <= 128 and 1 <= t1 <= 1024 (the domain the RFC defines).
+pub const fn expand_key_buf(key: &[u8; 128], t: usize, t1: usize) -> [u16; 64] {
+    let t8 = (t1 + 7) / 8;
+    let tm: u8 = (255u32 % (1u32 << (8 + t1 - 8 * t8))) as u8;
+    let mut l = [0u8; 128];
+    let mut i = 0;
+    while i < 128 {
+        if i < t {
+            l[i] = key[i];
+        }
+        i += 1;
+    }
+    // for i = T, T+1, ..., 127 do  L[i] = PITABLE[L[i-1] + L[i-T]]   (addition modulo 256)
+    let mut i = 0;
+    while i < 128 {
+        if i >= t {
+            l[i] = PITABLE[((l[i - 1] as usize) + (l[i - t] as usize)) % 256];
+        }
+        i += 1;
+    }
+    // L[128-T8] = PITABLE[L[128-T8] & TM]
+    l[128 - t8] = PITABLE[(l[128 - t8] & tm) as usize];
+    // for i = 127-T8 down to 0 do  L[i] = PITABLE[L[i+1] XOR L[i+T8]]
+    let mut n = 0;
+    while n < 128 {
+        let i = 127 - n; // i = 127 down to 0; only i <= 127 - T8 take part
+        if i + t8 <= 127 {
+            l[i] = PITABLE[(l[i + 1] ^ l[i + t8]) as usize];
+        }
+        n += 1;
+    }
+    let mut k = [0u16; 64];
+    let mut i = 0;
+    while i < 64 {
+        k[i] = (l[2 * i] as u16) + 256 * (l[2 * i + 1] as u16);
+        i += 1;
+    }
+    k
+}
+
+/// Key expansion from a slice (1..=128 bytes) and effective key length in bits (1..=1024).
+pub fn expand_key(key: &[u8], t1: usize) -> [u16; 64] {
+    let mut buf = [0u8; 128];
+    let mut i = 0;
+    while i < 128 {
+        if i < key.len() {
+            buf[i] = key[i];
+        }
+        i += 1;
+    }
+    expand_key_buf(&buf, key.len(), t1)
+}
+
+const S: [u32; 4] = [1, 2, 3, 5];
+
+/// "Mix up R[i]" (section 3.1); indices of R are taken modulo 4.  Returns the new R; `j` is advanced by the caller.
+pub const fn mix_up(mut r: [u16; 4], i: usize, k: &[u16; 64], j: usize) -> [u16; 4] {
+    let a = r[(i + 3) % 4]; // R[i-1]
+    let b = r[(i + 2) % 4]; // R[i-2]
+    let c = r[(i + 1) % 4]; // R[i-3]
+    r[i] = r[i].wrapping_add(k[j]).wrapping_add(a & b).wrapping_add(!a & c);
+    r[i] = r[i].rotate_left(S[i]);
+    r
+}
+
+/// "Mixing round": mix up R[0], R[1], R[2], R[3] with K[j..j+4].
+pub const fn mixing_round(mut r: [u16; 4], k: &[u16; 64], j: usize) -> [u16; 4] {
+    let mut i = 0;
+    while i < 4 {
+        r = mix_up(r, i, k, j + i);
+        i += 1;
+    }
+    r
+}
+
+/// "Mash R[i]" (section 3.3): R[i] = R[i] + K[R[i-1] & 63].
+pub const fn mash(mut r: [u16; 4], i: usize, k: &[u16; 64]) -> [u16; 4] {
+    r[i] = r[i].wrapping_add(k[(r[(i + 3) % 4] & 63) as usize]);
+    r
+}
+
+pub const fn mashing_round(mut r: [u16; 4], k: &[u16; 64]) -> [u16; 4] {
+    let mut i = 0;
+    while i < 4 {
+        r = mash(r, i, k);
+        i += 1;
+    }
+    r
+}
+
+/// "R-Mix up R[i]" (section 4.1).
+pub const fn r_mix_up(mut r: [u16; 4], i: usize, k: &[u16; 64], j: usize) -> [u16; 4] {
+    let a = r[(i + 3) % 4];
+    let b = r[(i + 2) % 4];
+    let c = r[(i + 1) % 4];
+    r[i] = r[i].rotate_right(S[i]);
+    r[i] = r[i].wrapping_sub(k[j]).wrapping_sub(a & b).wrapping_sub(!a & c);
+    r
+}
+
+/// "R-Mixing round": r-mix up R[3], R[2], R[1], R[0] with K[j], K[j-1], K[j-2], K[j-3] (j is the index used for R[3]).
+pub const fn r_mixing_round(mut r: [u16; 4], k: &[u16; 64], j: usize) -> [u16; 4] {
+    let mut n = 0;
+    while n < 4 {
+        r = r_mix_up(r, 3 - n, k, j - n);
+        n += 1;
+    }
+    r
+}
+
+/// "R-Mash R[i]" (section 4.3): R[i] = R[i] - K[R[i-1] & 63].
+pub const fn r_mash(mut r: [u16; 4], i: usize, k: &[u16; 64]) -> [u16; 4] {
+    r[i] = r[i].wrapping_sub(k[(r[(i + 3) % 4] & 63) as usize]);
+    r
+}
+
+pub const fn r_mashing_round(mut r: [u16; 4], k: &[u16; 64]) -> [u16; 4] {
+    let mut n = 0;
+    while n < 4 {
+        r = r_mash(r, 3 - n, k);
+        n += 1;
+    }
+    r
+}
+
+/// Section 3.4: j = 0; five mixing rounds; one mashing round; six mixing rounds; one mashing round; five mixing rounds.
+pub const fn encrypt_words(mut r: [u16; 4], k: &[u16; 64]) -> [u16; 4] {
+    let mut j = 0;
+    let mut n = 0;
+    while n < 5 { r = mixing_round(r, k, j); j += 4; n += 1; }
+    r = mashing_round(r, k);
+    let mut n = 0;
+    while n < 6 { r = mixing_round(r, k, j); j += 4; n += 1; }
+    r = mashing_round(r, k);
+    let mut n = 0;
+    while n < 5 { r = mixing_round(r, k, j); j += 4; n += 1; }
+    r
+}
+
+/// Section 4.4: j = 63; five r-mixing rounds; one r-mashing round; six r-mixing rounds; one r-mashing round; five r-mixing rounds.
+pub const fn decrypt_words(mut r: [u16; 4], k: &[u16; 64]) -> [u16; 4] {
+    let mut j = 63;
+    let mut n = 0;
+    while n < 5 { r = r_mixing_round(r, k, j); j = j.wrapping_sub(4); n += 1; }
+    r = r_mashing_round(r, k);
+    let mut n = 0;
+    while n < 6 { r = r_mixing_round(r, k, j); j = j.wrapping_sub(4); n += 1; }
+    r = r_mashing_round(r, k);
+    let mut n = 0;
+    while n < 5 { r = r_mixing_round(r, k, j); j = j.wrapping_sub(4); n += 1; }
+    r
+}
+
+pub const fn block_words(b: &[u8; 8]) -> [u16; 4] {
+    [
+        (b[0] as u16) + 256 * (b[1] as u16),
+        (b[2] as u16) + 256 * (b[3] as u16),
+        (b[4] as u16) + 256 * (b[5] as u16),
+        (b[6] as u16) + 256 * (b[7] as u16),
+    ]
+}
+pub const fn words_block(r: [u16; 4]) -> [u8; 8] {
+    [r[0] as u8, (r[0] >> 8) as u8, r[1] as u8, (r[1] >> 8) as u8, r[2] as u8, (r[2] >> 8) as u8, r[3] as u8, (r[3] >> 8) as u8]
+}
+
+pub const fn encrypt_with(k: &[u16; 64], block: &[u8; 8]) -> [u8; 8] { words_block(encrypt_words(block_words(block), k)) }
+pub const fn decrypt_with(k: &[u16; 64], block: &[u8; 8]) -> [u8; 8] { words_block(decrypt_words(block_words(block), k)) }
+
+pub fn encrypt(key: &[u8], t1: usize, block: &[u8; 8]) -> [u8; 8] { encrypt_with(&expand_key(key, t1), block) }
+pub fn decrypt(key: &[u8], t1: usize, block: &[u8; 8]) -> [u8; 8] { decrypt_with(&expand_key(key, t1), block) }
+
+#[cfg(test)]
+mod tests {
+    use super::*;
+
+    // RFC 2268 section 5, all eight vectors.
+    #[test]
+    fn rfc2268_section5() {
+        let k16 = [0x88, 0xbc, 0xa9, 0x0e, 0x90, 0x87, 0x5a, 0x7f, 0x0f, 0x79, 0xc3, 0x84, 0x62, 0x7b, 0xaf, 0xb2];
+        let k33 = [
+            0x88, 0xbc, 0xa9, 0x0e, 0x90, 0x87, 0x5a, 0x7f, 0x0f, 0x79, 0xc3, 0x84, 0x62, 0x7b, 0xaf, 0xb2, 0x16, 0xf8, 0x0a, 0x6f, 0x85,
+            0x92, 0x05, 0x84, 0xc4, 0x2f, 0xce, 0xb0, 0xbe, 0x25, 0x5d, 0xaf, 0x1e,
+        ];
+        let cases: [(&[u8], usize, u64, u64); 8] = [
+            (&[0; 8], 63, 0x0000000000000000, 0xebb773f993278eff),
+            (&[0xff; 8], 64, 0xffffffffffffffff, 0x278b27e42e2f0d49),
+            (&[0x30, 0, 0, 0, 0, 0, 0, 0], 64, 0x1000000000000001, 0x30649edf9be7d2c2),
+            (&[0x88], 64, 0, 0x61a8a244adacccf0),
+            (&k16[..7], 64, 0, 0x6ccf4308974c267f),
+            (&k16, 64, 0, 0x1a807d272bbe5db1),
+            (&k16, 128, 0, 0x2269552ab0f85ca6),
+            (&k33, 129, 0, 0x5b78d3a43dfff1f1),
+        ];
+        for (key, t1, pt, ct) in cases {
+            assert_eq!(encrypt(key, t1, &pt.to_be_bytes()), ct.to_be_bytes(), "T={} T1={}", key.len(), t1);
+            assert_eq!(decrypt(key, t1, &ct.to_be_bytes()), pt.to_be_bytes());
+        }
+    }
+
+    #[test]
+    fn pitable_is_a_permutation() {
+        let mut seen = [false; 256];
+        for &p in PITABLE.iter() { seen[p as usize] = true; }
+        assert!(seen.iter().all(|&b| b));
+        assert_eq!(&PITABLE[..8], &[0xd9, 0x78, 0xf9, 0xc4, 0x19, 0xdd, 0xb5, 0xed]);
+        assert_eq!(&PITABLE[248..], &[0x0a, 0xa6, 0x20, 0x68, 0xfe, 0x7f, 0xc1, 0xad]);
+    }
+
+    #[test]
+    fn extreme_parameters() {
+        // T = 128, T1 = 1024 and T1 = 1: in range, round trip
+        let key = [0x5au8; 128];
+        for t1 in [1usize, 7, 8, 9, 1023, 1024] {
+            let k = expand_key(&key, t1);
+            let b = [1, 2, 3, 4, 5, 6, 7, 8];
+            assert_eq!(decrypt_with(&k, &encrypt_with(&k, &b)), b);
+        }
+    }
+}
